@@ -184,7 +184,15 @@ def build_cube(shape, cube_id, fam, wseed, with_shape=True, kind="numpy", shift=
 def build_sequence(shapes, common_axis, fam="probe", wseed=0):
     from ndcube import NDCubeSequence
     cubes = [build_cube(sh, k, fam, wseed, shift=16 * k) for k, sh in enumerate(shapes)]
-    return NDCubeSequence(cubes, meta={"seq": 1}, common_axis=common_axis), cubes
+    cls = NDCubeSequence
+    if wseed % 4 == 2:
+        # a subclass (as instrument packages define): what the library derives from it is again of the subclass
+        class RasterLikeSequence(NDCubeSequence):
+            @property
+            def n_rasters(self):
+                return len(self.data)
+        cls = RasterLikeSequence
+    return cls(cubes, meta={"seq": 1}, common_axis=common_axis), cubes
 
 
 def world_lockstep(result_cube, sources, rng, exact, limit=24):
